@@ -10,6 +10,7 @@ import (
 	"github.com/orbs-network/lean-helix-go/services/interfaces"
 	"github.com/orbs-network/lean-helix-go/spec/types/go/primitives"
 	"github.com/orbs-network/lean-helix-go/state"
+	"github.com/orbs-network/lean-helix-go/verifhook"
 	"math"
 	"sync"
 	"time"
@@ -91,6 +92,7 @@ func (t *TimerBasedElectionTrigger) CalcTimeout(view primitives.View) time.Durat
 }
 
 func triggerElections(electionChannel chan *interfaces.ElectionTrigger, height primitives.BlockHeight, view primitives.View, triggerCancelled chan struct{}, electionsFunc func()) {
+	verifhook.At("et.fire") // no-op unless built with tag verif
 	select {
 	case <-triggerCancelled:
 		return
